@@ -1,3 +1,21 @@
+// Package c11 decides property C11 (/verif/properties.jsonl): "the two-phase-commit variable behaves
+// as one copy and does not livelock".
+//
+// Oracle, after every scheduler event (world.check, world.nodeOp):
+//   - per version one value across replicas (divergent-install), and it is the value written by the one
+//     section that won that version (installed-uncommitted, installed-not-winner-value);
+//   - a replica's version never decreases (version-decreased);
+//   - at most one section pre-commits successfully and commits per version (two-winners);
+//   - a section that read version k commits version k+1 or aborts (stale-read-commits), and a read returns
+//     the value installed for the replica's current version (read-not-committed-value);
+//   - the resource's own assertions do not fire (panic/*, crash/*), no operation blocks for good
+//     (deadlock: every goroutine durably blocked in the bubble and no timer; hang/*: blocked on the mutex).
+//
+// At quiescence (no message pending, no section in flight, no retry timer; world.final):
+//   - release/*: no replica still holds a pre-commit for a version that no replica has installed;
+//   - no-progress: each node in turn runs one increment alone without faults; at least one commits.
+//
+// Nothing else is demanded: a section may abort for any reason, a node may give up after max_attempts.
 package c11
 
 import (
@@ -188,6 +206,7 @@ type jobResult struct {
 	StaleDecided int64            `json:"stale_accept_decided"`
 	ProbeRuns    int64            `json:"probe_runs"`
 	ProbeFailed  int64            `json:"probe_failed"`
+	States       int64            `json:"states_expanded"`
 	Violations   []jobViol        `json:"violations"`
 	Samples      []explore.Sample `json:"samples"`
 	ReplayOut    string           `json:"replay_outcome,omitempty"`
@@ -233,7 +252,6 @@ func runChild(t *testing.T, jobPath string) {
 	setup := func(int) any { return &workerData{codec: newGobCodec()} }
 
 	// process-level watchdog: no scheduler step for HangLimitS seconds
-	var exploring sync.Mutex
 	stopWatch := make(chan struct{})
 	go func() {
 		last, lastAt := int64(-1), time.Now()
@@ -262,7 +280,6 @@ func runChild(t *testing.T, jobPath string) {
 			os.Exit(0)
 		}
 	}()
-	_ = &exploring
 
 	res := jobResult{Cfg: cfg.name()}
 	switch j.Mode {
@@ -290,6 +307,7 @@ func runChild(t *testing.T, jobPath string) {
 	close(stopWatch)
 	res.Steps, res.StepCapped, res.Teardown = cnt.steps.Load(), cnt.depthCapped.Load(), cnt.teardownStuck.Load()
 	res.StaleDecided, res.ProbeRuns, res.ProbeFailed = cnt.staleAcceptDecided.Load(), cnt.probeRuns.Load(), cnt.probeNodeFailed.Load()
+	res.States = cnt.statesExpanded.Load()
 	writeJSON(j.Out, res)
 }
 
@@ -548,7 +566,7 @@ func TestCheck(t *testing.T) {
 		// a single configuration never takes more than its share of the tier's budget
 		jobCap := 150 * time.Second
 		if env.Thorough() {
-			jobCap = 25 * time.Minute
+			jobCap = 20 * time.Minute
 		}
 		var wg sync.WaitGroup
 		next := make(chan int)
@@ -578,7 +596,7 @@ func TestCheck(t *testing.T) {
 		viol := map[string]hres.Viol{}
 		var perCfg []map[string]any
 		var samples []any
-		var evals, pruned, steps, divergences, stepCapped, teardown, stale, probeRuns, probeFailed int64
+		var evals, pruned, steps, divergences, stepCapped, teardown, stale, probeRuns, probeFailed, states int64
 		distinct := 0
 		exhaustive := true
 		var caps []string
@@ -666,6 +684,7 @@ func TestCheck(t *testing.T) {
 			stale += r.StaleDecided
 			probeRuns += r.ProbeRuns
 			probeFailed += r.ProbeFailed
+			states += r.States
 			if !r.Exhaustive {
 				exhaustive = false
 				caps = append(caps, fmt.Sprintf("%s: %s divergences=%d depth_capped=%d", cfg.name(), r.CapHit, r.Divergences, r.DepthCapped))
@@ -676,9 +695,9 @@ func TestCheck(t *testing.T) {
 				add(hres.Viol{Key: v.Key, What: v.What, Replay: replay{Cfg: *cfg, Choices: v.Choices, Trace: v.Trace}})
 			}
 			perCfg = append(perCfg, map[string]any{"cfg": cfg.name(), "executions": r.Executions, "pruned_on_revisited_state": r.Pruned, "distinct_outcomes": r.Outcomes,
-				"max_choice_points": r.MaxDepth, "exhaustive": r.Exhaustive, "wall_s": fmt.Sprintf("%.1f", r.WallS), "violation_keys": keys})
+				"max_choice_points": r.MaxDepth, "choice_states_expanded": r.States, "exhaustive": r.Exhaustive, "wall_s": fmt.Sprintf("%.1f", r.WallS), "violation_keys": keys})
 			for _, s := range r.Samples {
-				if len(samples) < 6 && len(s.Choices) > 40 {
+				if len(samples) < 6 && (len(s.Choices) > 40 || i == len(cfgs)-1) {
 					samples = append(samples, map[string]any{"cfg": cfg.name(), "choices": s.Choices, "outcome": s.Outcome})
 				}
 			}
@@ -695,12 +714,13 @@ func TestCheck(t *testing.T) {
 			exhaustive = false
 		}
 		res.Coverage = map[string]any{
-			"evaluations":         evals,
-			"distinct_nontrivial": distinct,
-			"rule": "one evaluation = one complete schedule (every choice of: which pending request is processed, which reply is delivered, which node performs its next operation, when timers fire, and within the budget which request/reply is lost, which request is duplicated, which section is aborted after its pre-commit) run on real TwoPC resources inside a synctest bubble, with the safety oracle after every event and the release/progress oracle at quiescence; branches whose canonical state (private state of every node via accessor, pending messages, timers, script positions, oracle tables; SenderTimes by rank) was already expanded with at least the same remaining budget are pruned and not counted; distinct = distinct final outcomes (per node final version, value, per-section result, probe result) summed over configurations",
+			"evaluations":                  evals,
+			"distinct_nontrivial":          distinct,
+			"rule":                         "one evaluation = one complete schedule (every choice of: which pending request is processed, which reply is delivered, which node performs its next operation, when timers fire, and within the budget which request/reply is lost, which request is duplicated, which section is aborted after its pre-commit) run on real TwoPC resources inside a synctest bubble, with the safety oracle after every event and the release/progress oracle at quiescence; branches whose canonical state (private state of every node via accessor, pending messages, timers, script positions, oracle tables; SenderTimes by rank) was already expanded with at least the same remaining budget are pruned and not counted; distinct = distinct final outcomes (per node final version, value, per-section result, probe result) summed over configurations",
 			"samples":                      samples,
 			"configurations":               perCfg,
 			"pruned_on_revisited_state":    pruned,
+			"choice_states_expanded":       states,
 			"scheduler_steps":              steps,
 			"exhaustive":                   exhaustive,
 			"caps_hit":                     caps,
